@@ -347,3 +347,33 @@ func hasTag(tags []string, t string) bool {
 	}
 	return false
 }
+
+// allText returns all contract text (used to decide which types the contracts mention).
+func (cs *ContractSet) allText() string {
+	var b strings.Builder
+	for _, p := range cs.Prelude {
+		b.WriteString(p.Text)
+		b.WriteByte('\n')
+	}
+	for _, c := range cs.ByName {
+		for _, l := range [][]*Clause{c.Requires, c.Ensures, c.Invs} {
+			for _, cl := range l {
+				b.WriteString(cl.Raw)
+				b.WriteByte('\n')
+			}
+		}
+		b.WriteString(strings.Join(c.Modifies, " "))
+		b.WriteByte('\n')
+		if c.SafeUnder != nil {
+			b.WriteString(c.SafeUnder.String())
+		}
+	}
+	for _, l := range cs.Lemmas {
+		b.WriteString(l.Raw)
+	}
+	for _, d := range cs.Directives {
+		b.WriteString(d[1])
+		b.WriteByte('\n')
+	}
+	return b.String()
+}
